@@ -624,9 +624,11 @@ def kron_case(draw, tier):
         }
     if family == "process":
         # unit cost of one |HS>>x|HS>> permutation grows like d^8: d=4 0.1 s, d=6 0.6 s, d=8 2 s, d=9 5 s
-        heavy = draw(st.integers(0, 9 if tier == "quick" else 5))
+        heavy = draw(st.integers(0, 19 if tier == "quick" else 11))
         if heavy == 0:
-            dims = draw(st.sampled_from([[2, 2, 2], [3, 3]]))
+            dims = [3, 3]
+        elif heavy <= 2:
+            dims = [2, 2, 2]
         else:
             dims = draw(st.sampled_from([[2, 2], [2, 2], [2, 3], [3, 2]]))
         k = len(dims)
@@ -634,8 +636,8 @@ def kron_case(draw, tier):
         pool = draw(st.permutations([2, 3, 4] if d == 4 else [2, 3]))
         if d == 9:
             n_mp = draw(st.integers(0, 1))
-        elif d == 8:  # two measurement processes among three factors: G x (M x M), (M x G) x M, ...
-            n_mp = draw(st.sampled_from([0, 1, 1, 2]))
+        elif d == 8:  # two measurement processes among three factors: G x (M x M), (M x G) x M, (M x M) x G ...
+            n_mp = draw(st.sampled_from([0, 1, 2, 2]))
         else:
             n_mp = draw(st.sampled_from([0, 1, 1, 2, 2, 2]))
         slots = draw(st.permutations(list(range(k))))
